@@ -596,6 +596,10 @@ class Stage:
         for_all_primitives(var, value, action, "First argument to set_initial must be a variable/signal or a simple concatenation of variables/signals")
         if self.master is not None and self.master.is_transcribed:
             self._method.set_initial(self._augmented, self.master._method, self._initial)
+            # A new guess for t0 or T moves the local time variables of the grid as well;
+            # time-dependent guesses are evaluated on that grid
+            if self._method.set_initial_time_grid(self._augmented, self.master._method):
+                self._method.set_initial(self._augmented, self.master._method, self._initial)
 
     def set_der(self, state, der, scale=1):
         r"""Assign a right-hand side to a state derivative
